@@ -115,6 +115,21 @@ def check_case(case):
         out.append({"case": case, "diagnosis": "round-trip-differs:%s->%s" % (encname, reader),
                     "detail": "%s | text %r" % (first_diff(nw, ng), text[:240])})
         return out, "violation"
+    if reader == "OMNI":
+        # the property names pvl.loads with no other arguments: the convenience function itself,
+        # not only the parser it builds (the counting lexer above is the net for non-termination)
+        import pvl
+        try:
+            got2 = pvl.loads(text)
+        except Exception as e:  # noqa: BLE001
+            out.append({"case": case, "diagnosis": "pvl.loads-rejects-what-OmniParser-accepts:" + encname,
+                        "detail": "text %r: %s: %s" % (text[:240], type(e).__name__, str(e)[:120])})
+            return out, "violation"
+        ng2 = modgen.norm_module(got2, rules)
+        if ng2 != nw:
+            out.append({"case": case, "diagnosis": "round-trip-differs:%s->pvl.loads" % encname,
+                        "detail": "%s | text %r" % (first_diff(nw, ng2), text[:240])})
+            return out, "violation"
     if reader == "OMNI" and list(getattr(got, "errors", [])):
         out.append({"case": case, "diagnosis": "empty-value-repair-fired-on-encoder-output:" + encname,
                     "detail": "errors %r, text %r" % (got.errors, text[:200])})
